@@ -434,3 +434,68 @@ impl<'a> BlockValidator<'a> {
 //@|         && final(state).fees == old(state).fees
 //@|         && final(state).api_access == old(state).api_access,
 //@end
+
+// ---------------------------------------------------------------------------------------
+// The single thread-local state (lib.rs:52-66). Rule R7: `with_state(|s| E)` => `{ let s: &State = vp_state(); E }`;
+// `with_state_mut(|s| B)` in a function extracted state-passing => `{ let s: &mut State = &mut *vp_st; B }`.
+// ---------------------------------------------------------------------------------------
+uninterp spec fn global_state() -> State;
+// [trusted:stand-in] the thread-local STATE read through with_state
+#[verifier::external_body]
+fn vp_state() -> (r: &'static State)
+    ensures *r == global_state(),
+{ unimplemented!() }
+// R6 (refusal mode): panic!(..) => vp_refuse(): diverges (the call traps and the IC rolls the message back)
+#[verifier::external_body]
+fn vp_refuse() -> ! { panic!() }
+
+//@extract file=canister/src/lib.rs item="const SYNCED_THRESHOLD" props=C14
+//@end
+
+// [trusted:assumed-spec] std::cmp::max on u32 via the generic spec above (u32 obeys cmp spec in vstd)
+
+// ---- C14 guards, refusal mode: if the guard returns, its condition held ----------------------
+//@extract file=canister/src/lib.rs item="fn verify_network" props=C14 mode=refuse
+//@ rewrite R7 "with_state\(\|state\| \{" => "{ let state: &State = vp_state(); {"
+//@ rewrite R7 "\}\);\s*\}$" => "}; } }"
+//@ spec
+//@| ensures global_state().utxos.network == network,
+//@end
+//@extract file=canister/src/lib.rs item="fn verify_api_access" props=C14 mode=refuse
+//@ rewrite R7 "with_state\(\|state\| \{" => "{ let state: &State = vp_state(); {"
+//@ rewrite R7 "\}\);\s*\}$" => "}; } }"
+//@ spec
+//@| ensures global_state().api_access != Flag::Disabled,
+//@end
+//@extract file=canister/src/lib.rs item="fn is_synced" props=C14
+//@ ret r
+//@ rewrite R7 "with_state\(\|state\| \{" => "{ let state: &State = vp_state(); {"
+//@ rewrite R7 "\}\)\s*\}$" => "} } }"
+//@ spec
+//@| requires state_ranges(&global_state()),
+//@| ensures r == synced_spec(&global_state()),
+//@ before "main_chain_height + SYNCED_THRESHOLD"
+//@| proof { lemma_best_path_le_depth(&state.unstable_blocks.tree); }
+//@end
+//@extract file=canister/src/lib.rs item="fn verify_synced" props=C14 mode=refuse
+//@ rewrite R7 "with_state\(\|state\| \{" => "{ let state: &State = vp_state(); {"
+//@ rewrite R7 "\}\);\s*\}$" => "}; } }"
+//@ spec
+//@| requires state_ranges(&global_state()),
+//@| ensures global_state().disable_api_if_not_fully_synced != Flag::Disabled ==> synced_spec(&global_state()),
+//@end
+
+// C14: "the highest validated announced header is at most 2 above the best-chain height"
+spec fn synced_spec(s: &State) -> bool {
+    let tip = s.utxos.next_height + s.unstable_blocks.tree.best_path().len() - 1;
+    match s.unstable_blocks.next_block_headers.max_height_spec() {
+        Some(m) => m <= tip + 2,
+        None => true,
+    }
+}
+// what every gated data endpoint may assume once its three guards have returned
+spec fn gate_spec(s: &State, network: Network, sync_rule: bool) -> bool {
+    &&& s.api_access != Flag::Disabled
+    &&& s.utxos.network == network
+    &&& (sync_rule && s.disable_api_if_not_fully_synced != Flag::Disabled ==> synced_spec(s))
+}
